@@ -211,6 +211,9 @@ impl Shards {
         }
         Ok(Self { files, next: 0, events: 0, bytes: 0, prop: prop.to_string(), build: build.to_string() })
     }
+    pub fn set_prop(&mut self, p: &str) {
+        self.prop = p.to_string();
+    }
     /// `body` is the inside of a JSON object WITHOUT braces, e.g. `"ev":"dec","n":8`
     pub fn emit(&mut self, body: &str) {
         self.events += 1;
